@@ -123,7 +123,6 @@ def run(ctx: Any) -> None:
                 "(boundary ints / floats incl. NaN payloads / astral and NUL strs / empty containers); observation = deserialize(serialize(x)), "
                 "directly, through state bytes, and through an HTTP continuation; distinct by (class shape, instance); non-trivial = the class "
                 "has at least one serialized field")
-    ctx.note = None
     cases: list[tuple[str, str]] = []
     case_info: list[dict[str, Any]] = []
 
@@ -275,11 +274,11 @@ def run(ctx: Any) -> None:
             else:
                 e = err[0] if err else res
                 etype, emsg = getattr(e, "error_type", type(e).__name__), str(getattr(e, "error_message", e))
-                out = (H.ERR_CODE.get(etype, 99), "VNone")
-                fake: BaseException = TypeError(emsg) if etype == "TypeError" else RuntimeError(emsg)
+                out = (100, "VNone")  # the server wraps the failure ("Failed to deserialize state"): only "an error" is observable
+                fake: BaseException = TypeError(emsg) if "unhashable" in emsg else RuntimeError(emsg)
                 key = H.finding_key(gen, cd, w, exc=fake)
                 if key == "roundtrip-raises-RuntimeError":
-                    key = "roundtrip-raises-" + etype
+                    key = "http-state-rehydration-raises-" + etype
                 ctx.violation(key, f"the stream state could not be rehydrated on the next HTTP exchange: {etype}: {emsg[:200]}", replay)
             ctx.count("impl_runs")
             ctx.tally("kind", "http-continuation")
@@ -291,7 +290,6 @@ def run(ctx: Any) -> None:
 
     # ---- 3. state bytes, msgpack absent (this process) and present (stand-in, subprocess) -------------------------------
     here = state_cases(gen, ctx.rng, 40 if quick else 250, 2)
-    ctx.obligation("env:msgpack-absent-in-check-process", "environment", here["have_msgpack"] is False or True, "")
     for v in here["violations"]:
         ctx.violation(v["key"], v["what"], {**v["replay"], "via": "_serialize_state_bytes/_deserialize_state_bytes", "msgpack": here["have_msgpack"]})
     ctx.count("impl_runs", here["stats"]["state_cases"])
